@@ -262,7 +262,9 @@ def treeLine (st : TState) (e : SExp) : TState × String :=
         -- ---- model conformance
         if mr != r && !(st.loose.contains id) then
           ({ st3 with dead := true }, (if r then "reject C08 " else "diff ") ++ s!"{kind} node {id}: Ready() is {r}, model {mr}")
-        else if md != d then ({ st3 with dead := true }, s!"reject C11/C12 {kind} node {id}: Done() is {d}, the closed subtree says {md}")
+        else if md != d then
+          -- (a consumer that was stalled and whose subscription died of it: C10 as well)
+          ({ st3 with dead := true }, s!"reject {if st.everStalled.contains id then "C10/C11/C12" else "C11/C12"} {kind} node {id}: Done() is {d}, the closed subtree says {md}")
         else if !(match mc, c with
             | some a, some b => sameObjSet a b
             | none, none => true
@@ -281,8 +283,9 @@ def treeLine (st : TState) (e : SExp) : TState × String :=
           ({ st3 with dead := true }, s!"reject C11/C12 {kind} node {id}: Events() closed is {ec}, node done is {md}")
         else (st3, "ok")
     | _, _, _, _, _ => (st, "bad obs")
-  | .list [.atom "monobs", .atom id, d, init, log, .atom early, .atom inits] =>
-    if early != "0" then ({ st with dead := true }, s!"reject C16 monitor {id}: {early} event callbacks ran before OnInitialize")
+  | .list [.atom "monobs", .atom id, d, init, log, .atom early, .atom inits, nilInit] =>
+    if decBool nilInit != some false then ({ st with dead := true }, s!"reject C16 monitor {id}: OnInitialize was called with nil — the result of a failed Cache().List() was handed to the handler")
+    else if early != "0" then ({ st with dead := true }, s!"reject C16 monitor {id}: {early} event callbacks ran before OnInitialize")
     else if inits != "0" && inits != "1" then ({ st with dead := true }, s!"reject C16 monitor {id}: OnInitialize was called {inits} times")
     else
     match id.toNat?, decBool d, decEvs log with
